@@ -197,7 +197,7 @@ PRDecC == [c EXCEPT !.inc = IF @ > 0 THEN @ - 1 ELSE 0]
 
 \* reader.Read returns a message (silent)
 RRead ==
-  /\ rpc = "read" /\ fromPeer # <<>> /\ c.rd
+  /\ rpc = "read" /\ fromPeer # <<>> /\ c.rd /\ c.co      \* a closed stream delivers nothing more
   /\ rmsg' = Head(fromPeer) /\ fromPeer' = Tail(fromPeer)
   /\ rpc' = IF Head(fromPeer).t = "resp" THEN "resp" ELSE "accept"
   /\ rreq' = IF Head(fromPeer).t = "req" THEN Head(fromPeer).r ELSE 0
